@@ -72,6 +72,7 @@ class Scenario:
         self.user_input = True
         self.buf_size = None      # -DYY_BUF_SIZE
         self.prefix = None
+        self.yylmax = None        # %option yylmax (only meaningful with %array)
         self.tables_file = False
         self.tables_verify = False
         self.alphabet = [97, 98, 99]
@@ -121,6 +122,15 @@ class Scenario:
             elif not r.conds and unq is None:
                 unq = i + 1
         return own if own is not None else unq
+
+    def default_rule_id(self):
+        """rule number under which matches of the default rule are logged; the c99 back end's yyecho() cannot
+        be hooked, so there the generator always appends a catch-all rule and REJECT is never issued from it"""
+        if self.flavor == 'c99':
+            return len(self.rules) if self.rules and self.c99_catchall else 0
+        return 0
+
+    c99_catchall = False
 
     def has_trailing(self):
         return any(r.trail_node() is not None for r in self.rules if not r.is_eof)
@@ -180,6 +190,51 @@ class Scenario:
     def cond_name(self, i):
         return self.conds[i][0]
 
+    def c99_action(self, k):
+        """the c99 back end rewrites yytext, yyleng, yylineno, yystart(), yyatbol(), yybegin(), yyunput(),
+        yyinput(), yymore(), yyless(), yyreject(), yyterminate() lexically inside action text, so the
+        interpreter of sim_pre.h's SIM_ACTION is written out literally here"""
+        o = ['{ sim_xop sim_x; int sim_go = 1; int sim_a; int sim_c;',
+             '  sim_enter(%d, 0, yytext, yyleng, yystart(), yylineno, yyatbol(), (void *) yy_current_buffer(yyscanner));' % k,
+             '  while (sim_go) { switch (sim_next_op(&sim_x)) {',
+             '    case SOP_END: sim_go = 0; break;',
+             '    case SOP_LESS: sim_a = (int) sim_x.a; yyless(sim_a); sim_res_text("less", yytext, yyleng); break;',
+             '    case SOP_UNPUT: sim_a = (int) sim_x.a; yyunput(sim_a); sim_res_state(yystart(), yylineno, yyatbol()); break;',
+             '    case SOP_INPUT: sim_c = yyinput(); sim_res_int("input", sim_c); sim_res_state(yystart(), yy_current_buffer(yyscanner) ? yylineno : -1, yy_current_buffer(yyscanner) ? yyatbol() : -1); break;']
+        if self.yymore:
+            o.append('    case SOP_MORE: yymore(); break;')
+        if self.reject:
+            o.append('    case SOP_REJECT: sim_leave(); yyreject();')
+        o += ['    case SOP_BEGIN: sim_a = (int) sim_x.a; yybegin(sim_a); break;']
+        if self.stack:
+            o += ['    case SOP_PUSH_STATE: yy_push_state((int) sim_x.a, yyscanner); break;',
+                  '    case SOP_POP_STATE: yy_pop_state(yyscanner); break;',
+                  '    case SOP_TOP_STATE: sim_res_int("top", yy_top_state(yyscanner)); break;']
+        o += ['    case SOP_GET_STATE: sim_res_int("state", yystart()); break;',
+              '    case SOP_RETURN: sim_leave(); return (int) sim_x.a;',
+              '    default: sim_common_op(&sim_x, yyscanner); break;',
+              '  } } sim_leave(); }']
+        return '\n'.join(o)
+
+    def c99_eof_action(self, k):
+        o = ['{ sim_xop sim_x; int sim_go = 1; int sim_a;',
+             '  sim_enter(%d, 1, "", 0, yystart(), yy_current_buffer(yyscanner) ? yylineno : -1, 0, (void *) yy_current_buffer(yyscanner));' % k,
+             '  while (sim_go) { switch (sim_next_op(&sim_x)) {',
+             '    case SOP_END: sim_go = 0; break;',
+             '    case SOP_BEGIN: sim_a = (int) sim_x.a; yybegin(sim_a); break;']
+        if self.stack:
+            o += ['    case SOP_PUSH_STATE: yy_push_state((int) sim_x.a, yyscanner); break;',
+                  '    case SOP_POP_STATE: yy_pop_state(yyscanner); break;',
+                  '    case SOP_TOP_STATE: sim_res_int("top", yy_top_state(yyscanner)); break;']
+        o += ['    case SOP_GET_STATE: sim_res_int("state", yystart()); break;',
+              '    case SOP_RETURN: sim_leave(); return (int) sim_x.a;',
+              '    case SOP_TERMINATE: sim_leave(); yyterminate();',
+              '    case SOP_NEWFILE: yyset_in(sim_x.f, yyscanner); yyrestart(sim_x.f, yyscanner); break;',
+              '    default: sim_common_op(&sim_x, yyscanner); break;',
+              '  } } sim_leave();',
+              '  if (!sim_cur->provided_input) { yyterminate(); } }']
+        return '\n'.join(o)
+
     def rule_line(self, i):
         r = self.rules[i]
         k = i + 1
@@ -189,6 +244,8 @@ class Scenario:
         elif r.conds:
             pre = '<' + ','.join(self.cond_name(c) for c in r.conds) + '>'
         if r.is_eof:
+            if self.flavor == 'c99':
+                return '%s<<EOF>>  %s' % (pre, self.c99_eof_action(k))
             return '%s<<EOF>>  { SIM_EOF_ACTION(%d); }' % (pre, k)
         st = (lambda n: r.styles.get(id(n), 0))
         p = rx.to_flex(r.pat, st)
@@ -200,6 +257,8 @@ class Scenario:
             p += '$'
         if r.bar:
             return '%s%s  |' % (pre, p)
+        if self.flavor == 'c99':
+            return '%s%s  %s' % (pre, p, self.c99_action(k))
         return '%s%s  { SIM_ACTION(%d); }' % (pre, p, k)
 
     def to_l(self):
@@ -215,7 +274,7 @@ class Scenario:
         o.append('#define SIM_HAS_YYMORE %d' % int(self.yymore))
         o.append('#define SIM_BOL_NEEDED %d' % int(self.bol_needed()))
         o.append('#define SIM_TEXT_IS_ARRAY %d' % int(self.array))
-        o.append('#define SIM_DEFAULT_RULE 0')
+        o.append('#define SIM_DEFAULT_RULE %d' % self.default_rule_id())
         o.append('#define SIM_HAS_TABLES %d' % int(self.tables_file))
         o.append('#define SIM_USER_INPUT %d' % int(self.user_input))
         o.append('#include "sim_pre.h"')
@@ -235,8 +294,16 @@ class Scenario:
             opts.append('reentrant')
         if self.flavor == 'c99':
             opts.append('emit="c99"')
+            opts.append('noyypanic')
+            opts.append('extra-type="void *"')
+            if self.buf_size:
+                opts.append('bufsize=%d' % self.buf_size)
+            if self.user_input:
+                opts.append('noyyread')
         if self.array:
             opts.append('array')
+            if self.yylmax:
+                opts.append('yylmax=%d' % self.yylmax)
         if self.interactive:
             opts.append(self.interactive)
         if self.use_read:
@@ -424,11 +491,13 @@ def gen_scenario(rng, want=None, forbid=()):
         if r.trail is not None:
             walk(r.trail)
     # configuration
-    sc.flavor = rng.choice(['nr', 'r'])
+    sc.flavor = rng.choice(want.pop('flavors', ['nr', 'r']))
     sc.tables = rng.choice(TABLE_OPTS)
     sc.bits = 8
     sc.interactive = rng.choice([None, None, 'interactive', 'batch', 'always-interactive', 'never-interactive'])
     sc.array = rng.random() < 0.3
+    if sc.array:
+        sc.yylmax = rng.choice([None, None, 8, 16, 40, 200])
     sc.lineno = rng.random() < 0.7
     sc.reject = rng.random() < 0.3
     sc.yymore = rng.random() < 0.7
@@ -446,6 +515,17 @@ def gen_scenario(rng, want=None, forbid=()):
                     r.trail = None
         else:
             sc.tables = rng.choice(['', '-Cem', '-Ce', '-Cm', '-C', '-Ca'])
+    if sc.flavor == 'c99':
+        # limits of the c99 back end met while building the harness (none of them a claimed property):
+        # '|' actions make flex die in m4; a newline-matching trailing-context rule without %option
+        # yylineno does not link; %array copies tokens with strncpy
+        for r in sc.rules:
+            r.bar = False
+        sc.lineno = True
+        # catch-all as the very last rule (after the <<EOF>> rules, which take no rule number at run time)
+        sc.rules.append(Rule(pat=rx.cls(rx.ALL), conds=[], star=(nc > 1)))
+        sc.c99_catchall = True
+        sc.array = False
     if sc.fulltbl() and sc.interactive in ('interactive', 'always-interactive'):
         sc.interactive = rng.choice([None, 'batch', 'never-interactive'])
     return sc
